@@ -94,6 +94,11 @@ def parse_vc(path):
         kw = w[0]
         if kw == 'unit': u.name = w[1]
         elif kw == 'serves': u.serves = getattr(u, 'serves', []) + w[1:]
+        elif kw == 'lemma':
+            # `lemma <proof fn name> [TAG,TAG] description`: a spec-file lemma counted as an obligation (an L3 statement over proved contracts)
+            ml = re.match(r'lemma\s+(\w+)\s+\[([^\]]+)\]\s*(.*)$', s)
+            if not ml: raise ValueError(f'{path}:{i+1}: expected `lemma name [TAGS] text`')
+            u.lemmas = getattr(u, 'lemmas', []) + [(ml.group(1), ml.group(2), ml.group(3), i + 1)]
         elif kw == 'shim': u.shims += w[1:]
         elif kw == 'spec': u.specs += w[1:]
         elif kw == 'module':
@@ -460,11 +465,24 @@ def build(unit, out_dir, twin=False, findings=False):
             n += 1
             c.id = f'K{n}'
             gen.clauses.append(c)
+    lemma_clauses = []
+    for (lname, ltags, ltext, lline) in getattr(unit, 'lemmas', []):
+        n += 1
+        c = Clause('lemma', ltags, ltext or ('lemma ' + lname), 'lemma ' + lname, None, lline)
+        c.id = f'K{n}'; c.lemma = lname
+        gen.clauses.append(c); lemma_clauses.append(c)
     parts = []
     for s in unit.shims:
         parts.append(open(os.path.join(ROOT, 'shim', s + '.rs')).read())
     for s in unit.specs:
-        parts.append(open(os.path.join(ROOT, 'spec', s + '.rs')).read())
+        stext = open(os.path.join(ROOT, 'spec', s + '.rs')).read()
+        for c in lemma_clauses:
+            ml = re.search(r'^pub proof fn ' + re.escape(c.lemma) + r'\b', stext, re.M)
+            if ml and not getattr(c, 'placed', False):
+                stext = stext[:ml.start()] + (MARK % c.id) + ' ' + stext[ml.start():]; c.placed = True
+        parts.append(stext)
+    for c in lemma_clauses:
+        if not getattr(c, 'placed', False): raise Unsupported(f'lost anchor: lemma {c.lemma} not found in the spec files of unit {unit.name}')
     for r in unit.raw_root:
         parts.append(r)
     # modules: build tree
@@ -522,6 +540,14 @@ def build(unit, out_dir, twin=False, findings=False):
         if c.id not in marks: raise Unsupported(f'internal: clause {c.id} lost')
         st = marks[c.id]
         c.lines = (st, st + c.text.count('\n'))
+        if c.kind == 'lemma':
+            # the whole proof fn: up to the line that closes its body
+            depth = 0; seen = False; end = st
+            for ln2 in range(st - 1, len(lines)):
+                depth += lines[ln2].count('{') - lines[ln2].count('}')
+                if '{' in lines[ln2]: seen = True
+                if seen and depth <= 0: end = ln2 + 1; break
+            c.lines = (st, end)
     gen.marks = marks
     # fn ranges (for attribution of implicit obligations)
     gen.fn_ranges = _fn_ranges(text)
